@@ -2,7 +2,8 @@
 import re
 import t2t, corr, semrun, sem
 
-OBLIGATIONS = ['Yalafi.C03_kinds', 'Yalafi.C03_removeLines_kinds', 'Yalafi.C03_comments_dropped', 'Yalafi.C03_comment_positions_outside']
+OBLIGATIONS = ['Yalafi.C03_kinds', 'Yalafi.C03_removeLines_kinds', 'Yalafi.C03_comments_dropped', 'Yalafi.C03_comment_positions_outside',
+               'Yalafi.C03_comments_dropped_current', 'Yalafi.C03_comments_example_current']
 
 MARKUP = re.compile(r'\\[A-Za-z@]+')
 
